@@ -192,6 +192,9 @@ def build_generator(ctx, P):
             coh[b] = {b2: (0.75 if b2 == b else 0.25 / (len(blocs) - 1)) for b2 in blocs}
             if len(blocs) == 2:
                 coh[b] = {b: 0.75, [x for x in blocs if x != b][0]: 0.25}
+    if P.get("coh_key_order") == "reversed":
+        # the inner dictionaries of one bloc written in different key orders (values are looked up by name)
+        coh = {b: {k: coh[b][k] for k in reversed(list(coh[b]))} for b in coh}
     info["cohesion"] = coh
     props = P.get("bloc_voter_prop") or {b: 1.0 / len(blocs) for b in blocs}
     info["props"] = props
